@@ -70,37 +70,50 @@ func c09Sub(c *core.Ctx, t *tape.Tape, cfg gCfg, faults bool, cut int, kind stri
 	where := fmt.Sprintf("cfg{%s} cut=%d/%s", cfg, cut, kind)
 	if kind == "failed" {
 		// a started agent with no peer: it fails on its checking deadline while gathering goes on
-		if _, err := g.ag.A.StartDial("peerufrag", "peerpwdxxxxxxxxxxxxxxxxxxxxxxxx"); err != nil {
+		var err error
+		g.api(func() { _, err = g.ag.A.StartDial("peerufrag", "peerpwdxxxxxxxxxxxxxxxxxxxxxxxx") })
+		if err != nil {
 			c.Failf("harness/start", "%v", err)
 			return 0, false
 		}
+		if g.sch != nil {
+			// the started agent's own timers submit to the loop all the time: the Failed cut runs unscheduled
+			g.sch.SetPass(true)
+		}
 	}
-	if err := g.ag.A.GatherCandidates(); err != nil {
-		c.Failf("harness/gather", "%v", err)
+	var gerr error
+	g.api(func() { gerr = g.ag.A.GatherCandidates() })
+	if gerr != nil {
+		c.Failf("harness/gather", "%v", gerr)
 		return 0, false
 	}
 	steps := 0
+	restart := func() error {
+		var err error
+		g.api(func() { err = g.ag.A.Restart("", "") })
+		return err
+	}
 	doCut := func() {
 		switch kind {
 		case "restart":
-			if err := g.ag.A.Restart("", ""); err != nil {
+			if err := restart(); err != nil {
 				c.Failf("harness/restart", "%v", err)
 			}
 			c.Probe("cut-restart")
 		case "restart+gather+close":
 			// a new cycle is started right after the Restart, then Close follows at once: Close waits for the
 			// new cycle only, the superseded one may still be waiting for a STUN reply
-			if err := g.ag.A.Restart("", ""); err != nil {
+			if err := restart(); err != nil {
 				c.Failf("harness/restart", "%v", err)
 			}
-			_ = g.ag.A.GatherCandidates()
+			g.api(func() { _ = g.ag.A.GatherCandidates() })
 			if !g.closeAgent() {
 				c.Failf("C09/close-did-not-return", "%s: Close did not return", where)
 			}
 			c.Probe("cut-restart-gather-close")
 		case "restart+close":
 			// Restart supersedes the gathering, Close follows at once (no time for it to wind down)
-			if err := g.ag.A.Restart("", ""); err != nil {
+			if err := restart(); err != nil {
 				c.Failf("harness/restart", "%v", err)
 			}
 			if !g.closeAgent() {
@@ -132,7 +145,7 @@ func c09Sub(c *core.Ctx, t *tape.Tape, cfg gCfg, faults bool, cut int, kind stri
 			// nothing pending: let gather timeouts expire once, then stop if still nothing
 			time.Sleep(cfg.stunTimeout + 50*time.Millisecond)
 			synctest.Wait()
-			if len(g.W.Parked()) == 0 && len(g.W.InFlight()) == 0 {
+			if g.pending() == 0 {
 				break
 			}
 		}
@@ -205,6 +218,15 @@ func c09Sub(c *core.Ctx, t *tape.Tape, cfg gCfg, faults bool, cut int, kind stri
 		if un := g.mux.Unreleased(); len(un) > 0 {
 			c.Failf("C09/mux-handle-not-released", "%s: mux handles neither closed nor removed: %v", where, un)
 			return steps, false
+		}
+	}
+	if g.muxSrflxC != nil {
+		if un := g.muxSrflxC.Unreleased(); len(un) > 0 {
+			c.Failf("C09/srflx-mux-handle-not-released", "%s: handles of the server-reflexive mux never closed: %v", where, un)
+			return steps, false
+		}
+		if len(g.muxSrflxC.Handles) > 1 {
+			c.Probe("srflx-mux-handles>1")
 		}
 	}
 	if g.tcpMux != nil {
